@@ -227,6 +227,13 @@ def _do_paste(rec, M, rng, nb, nf, ov, limit_arg, mb, mf, tag):
         ff[0] = ("f", t0, fb[0][2], fb[0][3])
     back = _mk_path(P, S, mb, fb, arr, rng.randrange(100))
     forw = _mk_path(P, S, mf, ff, arr)
+    shared_obj = (not ov) and nb and nf and rng.random() < 0.15
+    if shared_obj:
+        # both segments start from the very same System object and the caller
+        # says there is NO shared point to drop: the frame is kept twice
+        forw.phasepoints[0] = back.phasepoints[0]
+        ff[0] = fb[0]
+        rec.hit("paste_no_overlap_but_same_start_object")
     case = {"family": tag, "nb": nb, "nf": nf, "overlap": bool(ov),
             "maxlen": limit_arg, "maxlen_back": mb, "maxlen_forw": mf,
             "back": [list(x) for x in fb], "forw": [list(x) for x in ff]}
@@ -275,7 +282,9 @@ def _do_paste(rec, M, rng, nb, nf, ov, limit_arg, mb, mf, tag):
     _derived(rec, new, case, "pasted path")
     rec.reach("paste_time_order")
     times = [x.config[1] for x in new.phasepoints]
-    if any(b - a != 1 for a, b in zip(times, times[1:])):
+    if shared_obj:
+        pass        # the doubled junction frame repeats a time by design
+    elif any(b - a != 1 for a, b in zip(times, times[1:])):
         rec.bad("paste-time-order", f"frame times {times} do not increase "
                 "by one step", case)
     if nb and nf:
